@@ -383,6 +383,7 @@ WITNESSES = {
     "gamma_at_zero": (lambda srv: ("C13/incomplete-gamma-nan-at-z-0", math.isnan(unhex(srv.ask({"k": "special", "fn": "GammaP", "args": [fhex(0.01171875), fhex(0.0)], "ints": []}).get("r", ["NaN"])[0])), "GammaP(0.0117, 0)")),
     "gamma_tiny_z": _wit("C13/incomplete-gamma-tiny-z-variants-swapped", "GammaLower", [1.5, 3.754836445209773e-184], [], 4.8505979377778469364e-276),
     "gamma_p_derivative_subnormal": _wit("C13/gamma-p-derivative-subnormal-prefix", "GammaPfirstDerivative", [8.0, 1.2374511831283965e-39], [], 8.8158864986021969731e-277),
+    "gamma_p_second_derivative_underflow": _wit("C13/gamma-p-second-derivative-from-an-underflowed-first-derivative", "GammaPsecondDerivative", [6.5, 2.8349462300397132e-61], [], 6.5704475224983738121e-275),
     "besseli_large_x": _wit("C13/besseli-loses-digits-where-exp-x-overflows", "BesselI", [181.0, 720.0], [], 1.067227449643336724e+301, tol=1e-11),
     "logsub_cancellation": _wit("C13/logsub-cancellation", "LogSub", [0.0, -1e-8], [], -18.420680748952367, tol=1e-12),
 }
